@@ -387,7 +387,7 @@ def exactness_check(pid: str, part: str) -> int:
             return qq is not None and q_(qq, True)
         frx = [st for st in stmts if frag_x(st) and not frag(st)]
         extra = 0
-        while len(frx) < (80 if quick else 800) and extra < 20000:
+        while len(frx) < (40 if quick else 800) and extra < 20000:
             extra += 1
             st = astgen.gen_stmt(r, r.choice([0, 1, 2]), False)
             if frag_x(st) and not frag(st):
